@@ -79,18 +79,26 @@ inductive Cond where
   | all
   | idEq (id : Nat)            -- `Eq("_id", Int(id+1))`, id = slab id
   | eq (c : Nat) (v : Int)
+  | ne (c : Nat) (v : Int)     -- `Ne(col, v)`: a row without the column satisfies it
   | lt (c : Nat) (v : Int)
   | le (c : Nat) (v : Int)
   | gt (c : Nat) (v : Int)
   | ge (c : Nat) (v : Int)
+  | and (a b : Cond)           -- `And(a, b)`
+  | or (a b : Cond)            -- `Or(a, b)`
 deriving DecidableEq, Repr
 
-/-- `Condition::evaluate` on row `id` with values `vals`; a missing column compares false -/
+/-- `Condition::evaluate` on row `id` with values `vals`; a missing column compares false
+    (`Ne`: true).  `And` / `Or` evaluate both sides (`&&` / `||`; the depth limit of
+    `evaluate_with_depth`, 64 by default, is not modelled) -/
 def evalCond (cond : Cond) (id : Nat) (vals : List Int) : Bool :=
   match cond with
   | .all => true
   | .idEq j => id == j
   | .eq c v => match vals[c]? with | some x => x == v | none => false
+  | .ne c v => match vals[c]? with | some x => x != v | none => true
+  | .and a b => evalCond a id vals && evalCond b id vals
+  | .or a b => evalCond a id vals || evalCond b id vals
   | .lt c v => match vals[c]? with | some x => decide (x < v) | none => false
   | .le c v => match vals[c]? with | some x => decide (x ≤ v) | none => false
   | .gt c v => match vals[c]? with | some x => decide (x > v) | none => false
@@ -499,21 +507,32 @@ def cleanupTxs (s : State) : State × Res :=
 
 /-! ## queries -/
 
+/-- `index_lookup`: the bucket of `v` when the hash index on `c` exists -/
+def hashCands (T : Table) (c : Nat) (v : Int) : Option (List Nat) :=
+  if c ∈ T.hashOn then some ((T.hashE.filter fun e => e.1 == c && e.2.1 == v).map (·.2.2)) else none
+
+/-- `btree_range_lookup`: the ids under the keys satisfying `p` when the b-tree index on `c` exists -/
+def btCands (T : Table) (c : Nat) (p : Int → Bool) : Option (List Nat) :=
+  if c ∈ T.btreeOn then some ((T.btreeE.filter fun e => e.1 == c && p e.2.1).map (·.2.2)) else none
+
 /-- what `try_index_lookup` returns: candidate ids (with multiplicity) when an index serves the
-    condition, `none` for the scan path -/
+    condition, `none` for the scan path.  `And(a, b)`: the lookup of `a` when `a` is served by an
+    index, otherwise the lookup of `b`; `Or`, `Ne`, `True`, `_id` conditions: scan -/
 def candidates (T : Table) (cond : Cond) : Option (List Nat) :=
-  let hash := fun (c : Nat) (v : Int) =>
-    if c ∈ T.hashOn then some ((T.hashE.filter fun e => e.1 == c && e.2.1 == v).map (·.2.2)) else none
-  let bt := fun (c : Nat) (p : Int → Bool) =>
-    if c ∈ T.btreeOn then some ((T.btreeE.filter fun e => e.1 == c && p e.2.1).map (·.2.2)) else none
   match cond with
   | .all => none
   | .idEq _ => none
-  | .eq c v => hash c v
-  | .lt c v => bt c (fun k => decide (k < v))
-  | .le c v => bt c (fun k => decide (k ≤ v))
-  | .gt c v => bt c (fun k => decide (k > v))
-  | .ge c v => bt c (fun k => decide (k ≥ v))
+  | .eq c v => hashCands T c v
+  | .ne _ _ => none
+  | .lt c v => btCands T c (fun k => decide (k < v))
+  | .le c v => btCands T c (fun k => decide (k ≤ v))
+  | .gt c v => btCands T c (fun k => decide (k > v))
+  | .ge c v => btCands T c (fun k => decide (k ≥ v))
+  | .and a b =>
+    match candidates T a with
+    | some cands => some cands
+    | none => candidates T b
+  | .or _ _ => none
 
 /-- full-scan answer: live rows satisfying the condition, by ascending id -/
 def scanAnswer (T : Table) (cond : Cond) : List (Nat × List Int) :=
@@ -532,6 +551,30 @@ def select (T : Table) (cond : Cond) : List (Nat × List Int) :=
   match candidates T cond with
   | some cands => indexAnswer T cond cands
   | none => scanAnswer T cond
+
+inductive SelRes where
+  | rows (r : List (Nat × List Int))
+  | err (e : Err)
+deriving DecidableEq, Repr
+
+/-- `tx_select(tx, table, cond)`: the phase check of every transactional call, then the plain
+    `select` on the tables as they are (no read locks, no snapshot) -/
+def txSelect (s : State) (tx t : Nat) (cond : Cond) : SelRes :=
+  match gate s tx with
+  | some e => .err e
+  | none =>
+    match s.tables t with
+    | none => .err .tableNotFound
+    | some T => .rows (select T cond)
+
+/-- `is_transaction_active` -/
+def isActive (s : State) (k : Nat) : Bool :=
+  match s.txs k with
+  | some x => decide (x.phase = .active)
+  | none => false
+
+/-- `active_transaction_count` / `TransactionManager::active_count` -/
+def activeCount (s : State) : Nat := ((List.range s.nextTx).filter (isActive s)).length
 
 /-! ## one statement = one atomic step -/
 
